@@ -143,7 +143,10 @@ func (o *oracle) check(env *run5.Env, h hstate, q int) (viols []violation, done 
 		viols = append(viols, violation{sig: "submitted-but-not-finished " + tag, what: "every decided object has been submitted but the runner still reports a running duty (Finished not set)",
 			observed: "Finished=false", expected: "Finished=true"})
 	}
-	if h.numLatest() >= q && !done {
+	// "once 2f+1 correct partial signatures have arrived": asserted in both readings - 2f+1 members'
+	// latest message is correct, and (stronger, the literal one) 2f+1 members have at some point
+	// delivered a correct message, whatever they sent afterwards
+	if (h.numLatest() >= q || h.numEver() >= q) && !done {
 		// classify by what the container holds for the first missing object
 		cont := env.Container()
 		var missing []string
@@ -176,9 +179,13 @@ func (o *oracle) check(env *run5.Env, h hstate, q int) (viols []violation, done 
 				class = "correct-share-missing"
 			}
 		}
-		viols = append(viols, violation{sig: "liveness-unsubmitted " + tag + " container=" + class,
-			what: fmt.Sprintf("%d members' latest partial-signature message is entirely correct (quorum %d) but %v was not submitted (container of the first missing object: %s, finished=%v)",
-				h.numLatest(), q, missing, class, env.Finished()),
+		sigName, whatHead := "liveness-unsubmitted ", fmt.Sprintf("%d members' latest partial-signature message is entirely correct (quorum %d)", h.numLatest(), q)
+		if h.numLatest() < q {
+			sigName, whatHead = "liveness-unsubmitted(correct share replaced later) ", fmt.Sprintf("%d members have delivered an entirely correct partial-signature message (quorum %d; only %d of them did not send something else afterwards)", h.numEver(), q, h.numLatest())
+		}
+		viols = append(viols, violation{sig: sigName + tag + " container=" + class,
+			what: fmt.Sprintf("%s but %v was not submitted (container of the first missing object: %s, finished=%v)",
+				whatHead, missing, class, env.Finished()),
 			observed: map[string]interface{}{"submitted_per_object": count, "finished": env.Finished()}, expected: "one submission per decided object"})
 	}
 	return viols, done
